@@ -48,35 +48,36 @@ def empty_entity_tag : Nat := 36
 def element_decl : Nat := 37
 def content_spec : Nat := 38
 def children : Nat := 39
-def cp : Nat := 40
-def group : Nat := 41
-def mixed : Nat := 42
-def attlist_decl : Nat := 43
-def att_def : Nat := 44
-def att_type : Nat := 45
-def enumerated_type : Nat := 46
-def notation_type : Nat := 47
-def enumeration : Nat := 48
-def default_decl : Nat := 49
-def char_ref : Nat := 50
-def reference : Nat := 51
-def entity_ref : Nat := 52
-def pe_reference : Nat := 53
-def entity_decl : Nat := 54
-def ge_decl : Nat := 55
-def pe_decl : Nat := 56
-def entity_def : Nat := 57
-def pe_def : Nat := 58
-def external_id : Nat := 59
-def ndata_decl : Nat := 60
-def encoding_decl : Nat := 61
-def enc_name : Nat := 62
-def notation_decl : Nat := 63
-def public_id : Nat := 64
-def ns_att_name : Nat := 65
+def children_body : Nat := 40
+def cp : Nat := 41
+def group : Nat := 42
+def mixed : Nat := 43
+def attlist_decl : Nat := 44
+def att_def : Nat := 45
+def att_type : Nat := 46
+def enumerated_type : Nat := 47
+def notation_type : Nat := 48
+def enumeration : Nat := 49
+def default_decl : Nat := 50
+def char_ref : Nat := 51
+def reference : Nat := 52
+def entity_ref : Nat := 53
+def pe_reference : Nat := 54
+def entity_decl : Nat := 55
+def ge_decl : Nat := 56
+def pe_decl : Nat := 57
+def entity_def : Nat := 58
+def pe_def : Nat := 59
+def external_id : Nat := 60
+def ndata_decl : Nat := 61
+def encoding_decl : Nat := 62
+def enc_name : Nat := 63
+def notation_decl : Nat := 64
+def public_id : Nat := 65
+def ns_att_name : Nat := 66
 end N
 
-def ntNames : List String := ["ncname", "qname", "prefixed_name", "multichar0", "multinamestartchar0", "multinamechar0", "nmtoken", "multipubidchar0", "document", "name", "entity_value", "att_value", "system_literal", "pubid_literal", "char_data", "comment", "pi", "pi_target", "cdsect", "prolog", "xml_decl", "version_info", "eq", "version_num", "misc", "doctype_decl", "decl_sep", "int_subset", "markup_decl", "sd_decl", "element", "element_body", "stag", "attribute", "etag", "content", "empty_entity_tag", "element_decl", "content_spec", "children", "cp", "group", "mixed", "attlist_decl", "att_def", "att_type", "enumerated_type", "notation_type", "enumeration", "default_decl", "char_ref", "reference", "entity_ref", "pe_reference", "entity_decl", "ge_decl", "pe_decl", "entity_def", "pe_def", "external_id", "ndata_decl", "encoding_decl", "enc_name", "notation_decl", "public_id", "ns_att_name"]
+def ntNames : List String := ["ncname", "qname", "prefixed_name", "multichar0", "multinamestartchar0", "multinamechar0", "nmtoken", "multipubidchar0", "document", "name", "entity_value", "att_value", "system_literal", "pubid_literal", "char_data", "comment", "pi", "pi_target", "cdsect", "prolog", "xml_decl", "version_info", "eq", "version_num", "misc", "doctype_decl", "decl_sep", "int_subset", "markup_decl", "sd_decl", "element", "element_body", "stag", "attribute", "etag", "content", "empty_entity_tag", "element_decl", "content_spec", "children", "children_body", "cp", "group", "mixed", "attlist_decl", "att_def", "att_type", "enumerated_type", "notation_type", "enumeration", "default_decl", "char_ref", "reference", "entity_ref", "pe_reference", "entity_decl", "ge_decl", "pe_decl", "entity_def", "pe_def", "external_id", "ndata_decl", "encoding_decl", "enc_name", "notation_decl", "public_id", "ns_att_name"]
 
 namespace Prod
 def ncname : G :=
@@ -158,6 +159,8 @@ def element_decl : G :=
 def content_spec : G :=
   G.alt [G.tag [Char.ofNat 69,Char.ofNat 77,Char.ofNat 80,Char.ofNat 84,Char.ofNat 89], G.tag [Char.ofNat 65,Char.ofNat 78,Char.ofNat 89], G.nt N.mixed, G.nt N.children]
 def children : G :=
+  G.nt N.children_body
+def children_body : G :=
   G.seq [G.nt N.group, G.alt [G.alt [G.tag [Char.ofNat 63], G.tag [Char.ofNat 42], G.tag [Char.ofNat 43]], G.seq []]]
 def cp : G :=
   G.alt [G.nt N.children, G.seq [G.nt N.qname, G.alt [G.alt [G.tag [Char.ofNat 63], G.tag [Char.ofNat 42], G.tag [Char.ofNat 43]], G.seq []]]]
@@ -254,32 +257,33 @@ def env : Env
   | 37 => Prod.element_decl
   | 38 => Prod.content_spec
   | 39 => Prod.children
-  | 40 => Prod.cp
-  | 41 => Prod.group
-  | 42 => Prod.mixed
-  | 43 => Prod.attlist_decl
-  | 44 => Prod.att_def
-  | 45 => Prod.att_type
-  | 46 => Prod.enumerated_type
-  | 47 => Prod.notation_type
-  | 48 => Prod.enumeration
-  | 49 => Prod.default_decl
-  | 50 => Prod.char_ref
-  | 51 => Prod.reference
-  | 52 => Prod.entity_ref
-  | 53 => Prod.pe_reference
-  | 54 => Prod.entity_decl
-  | 55 => Prod.ge_decl
-  | 56 => Prod.pe_decl
-  | 57 => Prod.entity_def
-  | 58 => Prod.pe_def
-  | 59 => Prod.external_id
-  | 60 => Prod.ndata_decl
-  | 61 => Prod.encoding_decl
-  | 62 => Prod.enc_name
-  | 63 => Prod.notation_decl
-  | 64 => Prod.public_id
-  | 65 => Prod.ns_att_name
+  | 40 => Prod.children_body
+  | 41 => Prod.cp
+  | 42 => Prod.group
+  | 43 => Prod.mixed
+  | 44 => Prod.attlist_decl
+  | 45 => Prod.att_def
+  | 46 => Prod.att_type
+  | 47 => Prod.enumerated_type
+  | 48 => Prod.notation_type
+  | 49 => Prod.enumeration
+  | 50 => Prod.default_decl
+  | 51 => Prod.char_ref
+  | 52 => Prod.reference
+  | 53 => Prod.entity_ref
+  | 54 => Prod.pe_reference
+  | 55 => Prod.entity_decl
+  | 56 => Prod.ge_decl
+  | 57 => Prod.pe_decl
+  | 58 => Prod.entity_def
+  | 59 => Prod.pe_def
+  | 60 => Prod.external_id
+  | 61 => Prod.ndata_decl
+  | 62 => Prod.encoding_decl
+  | 63 => Prod.enc_name
+  | 64 => Prod.notation_decl
+  | 65 => Prod.public_id
+  | 66 => Prod.ns_att_name
   | _ => G.alt []
 
 theorem env_ncname : env N.ncname = Prod.ncname := rfl
@@ -322,6 +326,7 @@ theorem env_empty_entity_tag : env N.empty_entity_tag = Prod.empty_entity_tag :=
 theorem env_element_decl : env N.element_decl = Prod.element_decl := rfl
 theorem env_content_spec : env N.content_spec = Prod.content_spec := rfl
 theorem env_children : env N.children = Prod.children := rfl
+theorem env_children_body : env N.children_body = Prod.children_body := rfl
 theorem env_cp : env N.cp = Prod.cp := rfl
 theorem env_group : env N.group = Prod.group := rfl
 theorem env_mixed : env N.mixed = Prod.mixed := rfl
@@ -349,11 +354,13 @@ theorem env_notation_decl : env N.notation_decl = Prod.notation_decl := rfl
 theorem env_public_id : env N.public_id = Prod.public_id := rfl
 theorem env_ns_att_name : env N.ns_att_name = Prod.ns_att_name := rfl
 
+/-- `children` refuses nesting deeper than this (thread-local depth counter in the source) -/
+def maxDepth_children : Nat := 128
 /-- `element` refuses nesting deeper than this (thread-local depth counter in the source) -/
 def maxDepth_element : Nat := 128
 
 /-- semantic actions (closures of `map`) seen by the translator: (production, sha1 of the text).
     The model's `abs` functions are hand-written counterparts; the differential tie covers them. -/
-def actionFingerprints : List (String × String) := [("qname", "255d22b30239"), ("qname", "255d22b30239"), ("prefixed_name", "1b78533b5138"), ("document", "84460134d61e"), ("entity_value", "9b6e3d476697"), ("entity_value", "c43950530afe"), ("entity_value", "7c06e316074f"), ("entity_value", "9b6e3d476697"), ("entity_value", "c43950530afe"), ("entity_value", "7c06e316074f"), ("att_value", "6f93d1d1c682"), ("att_value", "6f93d1d1c682"), ("att_value", "6f93d1d1c682"), ("att_value", "6f93d1d1c682"), ("comment", "efed5b57a32d"), ("pi", "3db44056236f"), ("cdsect", "4e57dfb88628"), ("prolog", "9c2f5d02acff"), ("xml_decl", "a5ccd258860a"), ("misc", "16d07615705c"), ("misc", "16d07615705c"), ("misc", "16d07615705c"), ("doctype_decl", "cf4ebfbd648a"), ("decl_sep", "7219529fb20a"), ("decl_sep", "576148231fb6"), ("int_subset", "7219529fb20a"), ("markup_decl", "c4b9b8f701a7"), ("markup_decl", "5fb0f09f8d5c"), ("markup_decl", "e7deee2cc167"), ("markup_decl", "e7deee2cc167"), ("markup_decl", "e7deee2cc167"), ("markup_decl", "e7deee2cc167"), ("sd_decl", "f5c3e13f0d9b"), ("element_body", "55ef48a6e423"), ("stag", "49969d7f9c42"), ("attribute", "60a361a148e3"), ("attribute", "34b44e70bf7a"), ("content", "724022a66c14"), ("content", "7c664111a1b6"), ("content", "7c664111a1b6"), ("content", "7c664111a1b6"), ("content", "7c664111a1b6"), ("content", "7c664111a1b6"), ("empty_entity_tag", "49969d7f9c42"), ("element_decl", "05c2259f0b6d"), ("content_spec", "74a878543995"), ("content_spec", "7d5a68f559b2"), ("content_spec", "06449b27557c"), ("content_spec", "4cbaff72ef3c"), ("children", "295640c04c50"), ("cp", "fed998edeb2c"), ("group", "2e0299bce15d"), ("group", "6f25a07803de"), ("group", "159a155daec3"), ("mixed", "00b2aad45d07"), ("mixed", "c31eb39b2cc6"), ("attlist_decl", "e89ca67d4b1d"), ("att_def", "d2be2e8645c3"), ("att_def", "5f893f03fa91"), ("att_def", "d0d84792d7ec"), ("att_type", "5f9d9bdef57f"), ("att_type", "7ab2d3f1bd91"), ("att_type", "4657757c5ee5"), ("att_type", "d3075210a205"), ("att_type", "29d201f272c6"), ("att_type", "efc5ce234fa7"), ("att_type", "5a1fa8748789"), ("att_type", "df25cff1042c"), ("enumerated_type", "070769f9b122"), ("enumerated_type", "3ec64a285407"), ("notation_type", "a20747d89d6e"), ("enumeration", "a20747d89d6e"), ("default_decl", "d1aee26c7117"), ("default_decl", "2e1e0d887d0b"), ("default_decl", "9a1862108875"), ("char_ref", "76f168b85690"), ("char_ref", "91b3947c47be"), ("entity_ref", "c8348a104590"), ("entity_decl", "89b44a5c6ec8"), ("entity_decl", "89b44a5c6ec8"), ("ge_decl", "669d45e4f868"), ("pe_decl", "3253fb3764c4"), ("entity_def", "c45cfa7c406f"), ("entity_def", "c45cfa7c406f"), ("pe_def", "58efc2ca01f0"), ("pe_def", "58efc2ca01f0"), ("external_id", "67f9fb473b7c"), ("external_id", "67f9fb473b7c"), ("notation_decl", "143b61bd5b5a"), ("notation_decl", "cedb5c32d67c"), ("notation_decl", "cedb5c32d67c"), ("ns_att_name", "34b44e70bf7a"), ("ns_att_name", "4ada3f8d3293")]
+def actionFingerprints : List (String × String) := [("qname", "255d22b30239"), ("qname", "255d22b30239"), ("prefixed_name", "1b78533b5138"), ("document", "84460134d61e"), ("entity_value", "9b6e3d476697"), ("entity_value", "c43950530afe"), ("entity_value", "7c06e316074f"), ("entity_value", "9b6e3d476697"), ("entity_value", "c43950530afe"), ("entity_value", "7c06e316074f"), ("att_value", "6f93d1d1c682"), ("att_value", "6f93d1d1c682"), ("att_value", "6f93d1d1c682"), ("att_value", "6f93d1d1c682"), ("comment", "efed5b57a32d"), ("pi", "3db44056236f"), ("cdsect", "4e57dfb88628"), ("prolog", "9c2f5d02acff"), ("xml_decl", "a5ccd258860a"), ("misc", "16d07615705c"), ("misc", "16d07615705c"), ("misc", "16d07615705c"), ("doctype_decl", "cf4ebfbd648a"), ("decl_sep", "7219529fb20a"), ("decl_sep", "576148231fb6"), ("int_subset", "7219529fb20a"), ("markup_decl", "c4b9b8f701a7"), ("markup_decl", "5fb0f09f8d5c"), ("markup_decl", "e7deee2cc167"), ("markup_decl", "e7deee2cc167"), ("markup_decl", "e7deee2cc167"), ("markup_decl", "e7deee2cc167"), ("sd_decl", "f5c3e13f0d9b"), ("element_body", "55ef48a6e423"), ("stag", "49969d7f9c42"), ("attribute", "60a361a148e3"), ("attribute", "34b44e70bf7a"), ("content", "724022a66c14"), ("content", "7c664111a1b6"), ("content", "7c664111a1b6"), ("content", "7c664111a1b6"), ("content", "7c664111a1b6"), ("content", "7c664111a1b6"), ("empty_entity_tag", "49969d7f9c42"), ("element_decl", "05c2259f0b6d"), ("content_spec", "74a878543995"), ("content_spec", "7d5a68f559b2"), ("content_spec", "06449b27557c"), ("content_spec", "4cbaff72ef3c"), ("children_body", "295640c04c50"), ("cp", "fed998edeb2c"), ("group", "2e0299bce15d"), ("group", "6f25a07803de"), ("group", "159a155daec3"), ("mixed", "00b2aad45d07"), ("mixed", "c31eb39b2cc6"), ("attlist_decl", "e89ca67d4b1d"), ("att_def", "d2be2e8645c3"), ("att_def", "5f893f03fa91"), ("att_def", "d0d84792d7ec"), ("att_type", "5f9d9bdef57f"), ("att_type", "7ab2d3f1bd91"), ("att_type", "4657757c5ee5"), ("att_type", "d3075210a205"), ("att_type", "29d201f272c6"), ("att_type", "efc5ce234fa7"), ("att_type", "5a1fa8748789"), ("att_type", "df25cff1042c"), ("enumerated_type", "070769f9b122"), ("enumerated_type", "3ec64a285407"), ("notation_type", "a20747d89d6e"), ("enumeration", "a20747d89d6e"), ("default_decl", "d1aee26c7117"), ("default_decl", "2e1e0d887d0b"), ("default_decl", "9a1862108875"), ("char_ref", "76f168b85690"), ("char_ref", "91b3947c47be"), ("entity_ref", "c8348a104590"), ("entity_decl", "89b44a5c6ec8"), ("entity_decl", "89b44a5c6ec8"), ("ge_decl", "669d45e4f868"), ("pe_decl", "3253fb3764c4"), ("entity_def", "c45cfa7c406f"), ("entity_def", "c45cfa7c406f"), ("pe_def", "58efc2ca01f0"), ("pe_def", "58efc2ca01f0"), ("external_id", "67f9fb473b7c"), ("external_id", "67f9fb473b7c"), ("notation_decl", "143b61bd5b5a"), ("notation_decl", "cedb5c32d67c"), ("notation_decl", "cedb5c32d67c"), ("ns_att_name", "34b44e70bf7a"), ("ns_att_name", "4ada3f8d3293")]
 
 end XmlRs.Gen.Xml
